@@ -186,8 +186,13 @@ def check_noice(case, t, chunks, rstarts, ends, retract, lst, desc):
         v = parse_int(m.group(2), 16)
         if v is not None:
             symlst[m.group(1).upper()] = v
+    ndef = {}
+    for m in re.finditer(r'^DEFINE (\S+) 0x', noi, re.M):
+        ndef[m.group(1).upper()] = ndef.get(m.group(1).upper(), 0) + 1
     for m in re.finditer(r'^DEFINE (\S+) 0x([0-9A-Fa-f]+)', noi, re.M):
         nm = m.group(1).upper()
+        if ndef[nm] > 1:
+            continue        # the same name in several sections (the file has one DEFINE per section): compared where the name is unique
         if nm in symlst and (symlst[nm] & 0xffffffff) != (int(m.group(2), 16) & 0xffffffff):
             return core.R(False, 'noice', 'noice/define-value', 'DEFINE %s %s, listing says %x on %s' % (m.group(1), m.group(2), symlst[nm], desc))
     return core.R(True, 'noice-consistent', nontrivial=nline > 0, states=['noi:%s' % t], transitions=1)
